@@ -13,6 +13,10 @@ PRIMS = ["string", "integer", "number", "boolean", "null"]
 NAMES = ["a", "b", "c", "items", "keys", "copy", "get", "class", "def", "a-b", "a_b", "a b", "a.b", "1x", "-",
          "_a", "__init__", "__options__", "self", "é", "name", "type", "values", "update", "pop", "a_b_1",
          "A", "data", "None", "field_", "x-y"]
+# property names the parser cannot use as attributes, with the attribute it derives from them
+RENAMED = {"a-b": "a_b", "a b": "a_b", "a.b": "a_b", "x-y": "x_y", "1x": "field_1x", "-": "field_", "class": "class_value",
+           "def": "def_value", "None": "None_value", "_a": "a", "__init__": "init", "__options__": "options", "é": "field_",
+           "items": "items_1", "keys": "keys_1", "copy": "copy_1"}
 STRS = ["", "a", "ab", "abc", "abcd", "ba", "1", "2020-01-01", "x y", "é", "éé", "P1D", "10:00:00",
         "2020-01-01T10:00:00", "a0eebc99-9c0b-4ef8-bb6d-6bb9bd380a11", "1.2.3.4", "true", "3"]
 PATTERNS = ["^a", "a", "b$", "^[a-z]+$", "^[0-9]+$", "^.{2}$", "a|b", "^$", "^2020", "[0-9]"]
@@ -109,6 +113,12 @@ def kw_object(rng, s, depth):
             names.append("")                             # a property named "" (known finding empty-property-name)
         s["properties"] = {n: gen_schema(rng, depth - 1) for n in names}
     pool = names + ([rng.choice(NAMES)] if rng.random() < 0.25 else [])
+    renamed = [n for n in names if n in RENAMED]
+    if renamed and rng.random() < 0.3:
+        # a member that is only mentioned and spells the attribute a renamed property would get
+        n = rng.choice(renamed)
+        pool.append(RENAMED[n] + ("_1" if rng.random() < 0.2 else ""))
+        pool = list(dict.fromkeys(pool))
     if pool and rng.random() < 0.55:
         s["required"] = rng.sample(pool, rng.randint(1, min(len(pool), 2)))
     k = rng.random()
@@ -167,8 +177,8 @@ def enum_for(rng, s, t, depth):
 
 
 def gen_schema(rng: random.Random, depth: int = 3, top: bool = False):
-    """a schema of the fragment; below the top level also one of the boolean schemas now and then"""
-    if not top and rng.random() < 0.04:
+    """a schema of the fragment; now and then one of the boolean schemas (rarely as the whole document)"""
+    if rng.random() < (0.004 if top else 0.04):
         return rng.random() < 0.6
     s = gen_schema_obj(rng, depth)
     r = rng.random()
@@ -375,7 +385,8 @@ def mutate(rng: random.Random, v, depth=2):
     if isinstance(v, bool):
         return rng.choice([int(v), not v, str(v).lower(), None])
     if isinstance(v, (int, float)):
-        return rng.choice([v + 1, v - 1, v + 0.5, -v, float(v), str(v), v * 2, bool(v) if v in (0, 1) else v + 2, None, [v]])
+        return rng.choice([v + 1, v - 1, v + 0.5, -v, float(v), str(v), v * 2, bool(v) if v in (0, 1) else v + 2, None, [v],
+                           rng.random() < 0.5, rng.random() < 0.5])     # bool is a subclass of int in Python
     if isinstance(v, str):
         return rng.choice([v + "a", v[:-1], "", v + v, v.upper(), 0, None, [v], rng.choice(STRS)])
     if v is None:
@@ -448,6 +459,8 @@ def gen_case(rng: random.Random, depth: int = 3, n_inputs: int = 6) -> dict:
             v = mutate(rng, v)
         inputs.append(v)
     inputs.append(any_value(rng, 2))
+    if rng.random() < 0.25:
+        inputs.append(rng.random() < 0.5)                # the value Python takes for an int
     return mk_case(s, inputs)
 
 
@@ -829,8 +842,8 @@ class C15(Check):
         if not js.get("check"):
             return []
         if io["build"] != "ok":
-            fid = "empty-property-name" if io["build"] == "ConfigError" and mo.get("emptyName") else \
-                "degenerate-constraints" if io["build"] == "ConfigError" and mo.get("degenerate") else None
+            fid = "degenerate-constraints" if io["build"] == "ConfigError" and mo.get("degenerate") else \
+                "empty-property-name" if io["build"] == "ConfigError" and mo.get("emptyName") else None
             return [(f"building a type raised {io['build']}: {io.get('msg', '')[:120]}", fid)]
         out = []
         clash = mo.get("clash", [])
@@ -891,6 +904,8 @@ class C15(Check):
 
     def distribution(self, case, io):
         s = schema_of(case)
+        if isinstance(s, bool):
+            s = {"type": f"document-{str(s).lower()}"}
         t = s.get("type")
         shape = ("list" if isinstance(t, list) else t) if t else ("enum" if ("enum" in s or "const" in s) and len(s) <= 2 else "typeless" if s else "empty")
         comb = "+".join(k for k in ("anyOf", "oneOf", "allOf") if k in s)
